@@ -116,7 +116,7 @@ def find_witnesses(task, seed, want=3, tries=400):
     return out, ns
 
 
-def values_agree(ev_val, nat, tol=1e-9):
+def values_agree(ev_val, nat, tol=1e-7):
     """engine value vs native python value"""
     if isinstance(ev_val, SOpaque):
         return True
@@ -167,6 +167,7 @@ def engine_run_concrete(task_factory, ev):
     """run the engine as an interpreter on concrete inputs; returns ('return', v) | ('raise', cls)"""
     task = task_factory()
     task.ctx.concrete_math = True
+    task.ip.modular = False
     task.ctx.spec_depth = 0
     vals = {}
     for n, sh in task.inst.items():
@@ -243,3 +244,78 @@ def cross_check(task_factory, seed, want=3):
                     res['clause_failures'].append({'clause': cl.label, 'error': f'{type(e).__name__}: {e}',
                                                    'inputs': repr(old_args)[:200]})
     return res
+
+
+def native_clause_violated(task, ns, args, kind, clause_src):
+    """run the real function on args and evaluate the clause natively: True if violated"""
+    import copy
+    try:
+        old_args = copy.deepcopy(args)
+    except Exception:  # noqa
+        old_args = args
+    okind, val = native_run(task, args, ns)
+    env = dict(ns)
+    env.update(args)
+    old_env = dict(ns)
+    old_env.update(old_args)
+    c = task.c
+    excs = list(c.raises)
+
+    def permitted(e):
+        return any(k.__name__ in excs for k in type(e).__mro__)
+    if kind == 'post':
+        if okind == 'raise':
+            return not permitted(val)
+        env['result'] = val
+        try:
+            src, olds = rewrite_old(clause_src)
+            for k, osrc in enumerate(olds):
+                env[f'__old_{k}'] = eval(osrc, old_env)
+            return not eval(src, env)
+        except Exception:  # noqa
+            return True
+    if kind == 'raises':
+        for en, cond in c.raises.items():
+            if cond is None:
+                continue
+            try:
+                want = bool(eval(cond, old_env))
+            except Exception:  # noqa
+                continue
+            got = okind == 'raise' and any(k.__name__ == en for k in type(val).__mro__)
+            if want != got:
+                return True
+        return okind == 'raise' and not permitted(val)
+    if kind in ('nodiv0', 'index', 'domain'):
+        return okind == 'raise' and not permitted(val)
+    if kind == 'frame':
+        from .rtframe import deep_diff
+        return bool(deep_diff(old_args, args, list(c.modifies or [])))
+    return False
+
+
+def native_search(task, kind, clause_src, seed, tries=600):
+    """seeded search for a concrete input on which the real code violates the clause.
+    Returns {param: python-source} or None."""
+    ns = native_namespace(task)
+    rng = random.Random(seed * 7919 + 13)
+    for k in range(tries):
+        ev = RandomEv(random.Random(rng.random()), sorted_lists=(k % 2 == 0))
+        try:
+            srcs = {n: sh.native(n, ev) for n, sh in task.inst.items() if not isinstance(sh, Shared)}
+            args = {n: eval(s, ns) for n, s in srcs.items()}
+            for n, sh in task.inst.items():
+                if isinstance(sh, Shared):
+                    args[n] = args[sh.other]
+        except Exception:  # noqa
+            continue
+        if task.c.setup is not None and getattr(task.c.setup, 'native', None):
+            task.c.setup.native(args, ns)
+        if not requires_ok(task, args, ns):
+            continue
+        try:
+            if native_clause_violated(task, ns, args, kind, clause_src):
+                return srcs
+        except Exception:  # noqa
+            continue
+    return None
